@@ -5,10 +5,10 @@ package godi
 import "sync/atomic"
 
 type vpBase struct {
-	Ctor   int   // constructor (registration) id
-	Inv    int   // invocation number of that constructor
-	Out    int   // output index within the invocation
-	Inst   int   // instance id (global per scenario)
+	Ctor   int // constructor (registration) id
+	Inv    int // invocation number of that constructor
+	Out    int // output index within the invocation
+	Inst   int // instance id (global per scenario)
 	Life   Lifetime
 	ScopeN int // model id of the scope it was created through
 	w      *vpWorld
